@@ -20,6 +20,10 @@ import (
 )
 
 var (
+	// outDir: where evidence/ and replays/ go; VERIF_OUT redirects them when the
+	// checks are pointed at a mutated scratch worktree (VERIF_REPO) so that the
+	// committed evidence is only ever written by runs against /repo itself
+	outDir   = envOr("VERIF_OUT", envOr("VERIF_DIR", "/verif"))
 	verifDir = envOr("VERIF_DIR", "/verif")
 	repoDir  = envOr("VERIF_REPO", "/repo")
 	modCache = envOr("GOMODCACHE", "/root/go/pkg/mod")
@@ -586,7 +590,7 @@ func cmdCheck(prop, tier string) int {
 	})
 	var replayFiles []string
 	seenClass := map[string]int{}
-	_ = os.MkdirAll(verifDir+"/replays", 0o755)
+	_ = os.MkdirAll(outDir+"/replays", 0o755)
 	for i := range agg.Violations {
 		v := &agg.Violations[i]
 		if seenClass[v.Class] >= 1 || len(replayFiles) >= 4 {
@@ -611,7 +615,7 @@ func cmdCheck(prop, tier string) int {
 		} else {
 			fmt.Fprintf(os.Stderr, "driver: minimisation failed (%v): %s\n", err, out)
 		}
-		name := fmt.Sprintf("%s/replays/%s-%d-%d-%s.json", verifDir, prop, seed, v.Run, sanitize(v.Class))
+		name := fmt.Sprintf("%s/replays/%s-%d-%d-%s.json", outDir, prop, seed, v.Run, sanitize(v.Class))
 		copyFile(final, name)
 		replayFiles = append(replayFiles, name)
 	}
@@ -767,9 +771,9 @@ func writeEvidence(prop, tier string, seed uint64, spec *propSpec, agg *aggregat
 		"wall_s":      wall,
 		"violations":  nviol,
 	}
-	_ = os.MkdirAll(verifDir+"/evidence", 0o755)
+	_ = os.MkdirAll(outDir+"/evidence", 0o755)
 	b, _ := json.MarshalIndent(ev, "", " ")
-	if err := os.WriteFile(verifDir+"/evidence/"+prop+".json", b, 0o644); err != nil {
+	if err := os.WriteFile(outDir+"/evidence/"+prop+".json", b, 0o644); err != nil {
 		fatal2("write evidence: %v", err)
 	}
 }
